@@ -593,23 +593,25 @@ Qed.
 
 (** * Every operation keeps the buckets consistent *)
 
-Lemma c_add_bc c j at_ : buckets_consistent c -> b_tid j = None ->
+Lemma c_add_bc c j at_ : buckets_consistent c ->
   buckets_consistent (fst (c_add c j at_)).
 Proof.
-  intros Hc Ht. unfold c_add.
+  intros Hc. unfold c_add.
   destruct (gen_aid (b_account j) (b_id j)) as [aid| | |] eqn:G; cbn [fst]; try exact Hc.
   apply gen_aid_ok in G.
   destruct (alookup aid (c_jobs c)) eqn:L; cbn [fst]; [exact Hc|].
   destruct (set_flags j) as [j'| | |] eqn:Sf; cbn [fst]; try exact Hc.
   destruct (set_flags_ok _ _ Sf) as (A & I & T & _).
   apply update_bc; [exact Hc|].
-  unfold upd_ok. rewrite T, Ht.
+  unfold upd_ok. cbn [b_tid].
+  replace (aid_of (mkB (b_account j') (b_id j') (b_kind j') (b_once j') (b_evict j') None))
+    with (aid_of j') by reflexivity.
   rewrite (aid_of_eq j j' A I). unfold aid_of. rewrite <- G. exact L.
 Qed.
 
 Theorem buckets_consistent_step : buckets_consistent_step_statement.
 Proof.
-  intros c o Hc Ho. destruct o as [j at_|a i|a|p now ats|]; cbn [bstep].
+  intros c o Hc. destruct o as [j at_|a i|a|p now ats|]; cbn [bstep].
   - apply c_add_bc; assumption.
   - unfold c_delete. destruct (gen_aid a i); cbn [fst]; try exact Hc.
     apply delete_aid_bc; exact Hc.
@@ -625,17 +627,27 @@ Proof.
   - intros t j H. discriminate H.
 Qed.
 
-Lemma brun_bc ops : forall c, buckets_consistent c -> Forall clean_op ops ->
+Lemma brun_bc ops : forall c, buckets_consistent c ->
   buckets_consistent (brun ops c).
 Proof.
-  induction ops as [|o r IH]; intros c Hc Hf; cbn [brun fold_left].
+  induction ops as [|o r IH]; intros c Hc; cbn [brun fold_left].
   - exact Hc.
-  - inversion Hf; subst. apply IH; [|assumption].
-    apply buckets_consistent_step; assumption.
+  - apply IH. apply buckets_consistent_step; assumption.
 Qed.
 
 Theorem buckets_consistent_reachable : buckets_consistent_statement.
-Proof. intros ops parts Hf. apply brun_bc; [apply init_bc|exact Hf]. Qed.
+Proof. intros ops parts. apply brun_bc. apply init_bc. Qed.
+
+Theorem client_tid_ignored : client_tid_ignored_statement.
+Proof.
+  intros c j t at_. unfold c_add, with_tid. cbn [b_account b_id].
+  destruct (gen_aid (b_account j) (b_id j)); try reflexivity.
+  destruct (alookup a (c_jobs c)); try reflexivity.
+  unfold set_flags. cbn [b_evict b_kind b_account b_id b_once b_tid].
+  destruct (b_evict j); [reflexivity|].
+  destruct (String.eqb (b_kind j) "dur"); [reflexivity|].
+  destruct (String.eqb (b_kind j) "cron"); reflexivity.
+Qed.
 
 (** * What work fires *)
 
@@ -673,19 +685,21 @@ Proof.
   destruct H as (j & H1 & H2 & H3 & H4 & H5 & _). exists j. auto.
 Qed.
 
-Lemma key_due_sec k now : key_due k now = true -> fst k / sec <= now / sec.
+Theorem key_due_iff : key_due_iff_statement.
+Proof. intros k now. unfold key_due. apply Z.ltb_lt. Qed.
+
+Theorem key_order_is_time_order : key_order_is_time_order_statement.
 Proof.
-  unfold key_due. destruct (Z.compare_spec (fst k / sec) (now / sec)); intros Hd.
-  - lia.
-  - lia.
-  - discriminate Hd.
+  intros a b. unfold tkey_cmp. split.
+  - intros H. apply Z.compare_lt_iff in H. rewrite H. reflexivity.
+  - destruct (Z.compare_spec (fst a) (fst b)); intros Hc; try lia. discriminate Hc.
 Qed.
 
 Theorem work_fires_due_only : work_fires_due_only_statement.
 Proof.
   intros c part now ats f H. apply c_work_fired in H.
   destruct H as (j & _ & _ & _ & _ & _ & Hd & _).
-  split; [exact Hd|apply key_due_sec; exact Hd].
+  split; [exact Hd|apply key_due_iff; exact Hd].
 Qed.
 
 (** * One-shot entries become evict entries *)
@@ -882,7 +896,7 @@ Qed.
 
 Lemma c_add_cases c j at_ :
   fst (c_add c j at_) = c \/
-  exists j', set_flags j = Ok j' /\ fst (c_add c j at_) = update c j' at_.
+  exists j', set_flags j = Ok j' /\ fst (c_add c j at_) = update c (with_tid j' None) at_.
 Proof.
   unfold c_add. destruct (gen_aid (b_account j) (b_id j)); cbn [fst]; auto.
   destruct (alookup a (c_jobs c)); cbn [fst]; auto.
@@ -898,12 +912,14 @@ Proof.
   intros Hc Hk. destruct o as [j at_|a i|a|p now ats|]; cbn [bstep bfires filter length is_badd].
   - destruct (c_add_cases c j at_) as [->|(j' & Sf & ->)].
     + split; [exact Hk|]. destruct (String.eqb (aid_of j) aid); lia.
-    + split; [apply kinds_update; [exact Hk|eapply set_flags_kind; exact Sf]|].
+    + split; [apply kinds_update; [exact Hk|exact (set_flags_kind _ _ Sf)]|].
       destruct (set_flags_ok _ _ Sf) as (A & I & _).
       pose proof (aid_of_eq j j' A I) as Ea.
       destruct (String.eqb_spec (aid_of j) aid) as [Eaid|Hne].
-      * pose proof (pend_le1 (update c j' at_) aid). lia.
-      * rewrite pend_update_other; [lia|]. rewrite Ea. congruence.
+      * pose proof (pend_le1 (update c (with_tid j' None) at_) aid). lia.
+      * rewrite pend_update_other; [lia|].
+        replace (aid_of (with_tid j' None)) with (aid_of j') by reflexivity.
+        rewrite Ea. congruence.
   - unfold c_delete. destruct (gen_aid a i); cbn [fst]; (split; [|try lia]); try exact Hk.
     + apply kinds_delete; exact Hk.
     + pose proof (pend_delete c a0 aid). lia.
@@ -919,78 +935,66 @@ Proof.
 Qed.
 
 Lemma crolt_run_count aid ops : forall c acc,
-  buckets_consistent c -> kinds_ok c -> Forall clean_op ops ->
+  buckets_consistent c -> kinds_ok c ->
   (length (filter (is_once_fire aid) (brun_fires ops c acc))
    <= length (filter (is_once_fire aid) acc) + pend c aid
       + length (filter (is_badd aid) ops))%nat.
 Proof.
-  induction ops as [|o r IH]; intros c acc Hc Hk Hf; cbn [brun_fires filter].
+  induction ops as [|o r IH]; intros c acc Hc Hk; cbn [brun_fires filter].
   - cbn [length]. lia.
-  - inversion Hf as [|? ? Ho Hr]; subst.
-    destruct (crolt_step_count aid c o Hc Hk) as [Hk' Hle].
+  - destruct (crolt_step_count aid c o Hc Hk) as [Hk' Hle].
     specialize (IH (bstep c o) (bfires c o ++ acc)%list
-                   (buckets_consistent_step c o Hc Ho) Hk' Hr).
+                   (buckets_consistent_step c o Hc) Hk').
     rewrite filter_app, app_length in IH.
     destruct (is_badd aid o); cbn [length]; lia.
 Qed.
 
 Theorem crolt_oneshot_fires_at_most_once : crolt_oneshot_fires_at_most_once_statement.
 Proof.
-  intros ops parts aid Hf.
+  intros ops parts aid.
   pose proof (crolt_run_count aid ops (crolt_init parts) [] (init_bc parts)) as H.
   assert (Hk : kinds_ok (crolt_init parts)).
   { intros a j Hl. discriminate Hl. }
-  specialize (H Hk Hf). cbn [filter length] in H.
+  specialize (H Hk). cbn [filter length] in H.
   assert (Hp : pend (crolt_init parts) aid = 0%nat) by reflexivity.
   lia.
 Qed.
 
 (** * Closed examples and counterexamples *)
 
-(** D40: AddHandler takes the TId from the client.  A second Add that carries
-    the TId of another job makes update delete that job's time entry. *)
-Lemma client_tid_breaks_consistency_counterexample :
+(** D40 repaired: the trace on which a client TId removed another job's time
+    entry; the TId is ignored now and the buckets stay consistent. *)
+Example client_tid_ignored_example :
   let ops := [BAdd (mkB "homer" "1" "dur" false false None) 5000;
               BAdd (mkB "homer" "9" "dur" false false (Some (5000, "homer,1"))) 6000] in
   let c := brun ops (crolt_init 2) in
-  (exists j, alookup "homer,1" (c_jobs c) = Some j /\ b_tid j = Some (5000, "homer,1")) /\
-  tlookup (5000, "homer,1") (c_time c) = None.
+  (exists j, alookup "homer,1" (c_jobs c) = Some j /\ b_tid j = Some (5000, "homer,1") /\
+             tlookup (5000, "homer,1") (c_time c) = Some j) /\
+  map fst (c_time c) = [(5000, "homer,1"); (6000, "homer,9")].
 Proof.
   cbv zeta. split.
-  - eexists. split; vm_compute; reflexivity.
+  - eexists. repeat split; vm_compute; reflexivity.
   - vm_compute. reflexivity.
 Qed.
 
-Lemma client_tid_breaks_consistency :
-  let ops := [BAdd (mkB "homer" "1" "dur" false false None) 5000;
-              BAdd (mkB "homer" "9" "dur" false false (Some (5000, "homer,1"))) 6000] in
-  ~ buckets_consistent (brun ops (crolt_init 2)).
-Proof.
-  cbv zeta. intros Hc.
-  destruct client_tid_breaks_consistency_counterexample as [(j & Hj & Ht) Hn].
-  destruct (bc_job _ _ _ Hc Hj) as (_ & t & Ht' & _ & Hl).
-  assert (t = (5000, "homer,1")) by congruence. subst t.
-  rewrite Hn in Hl. discriminate Hl.
-Qed.
-
-(** D39: the bound of work is the RFC3339Nano rendering of now, compared
-    bytewise: "...05.55Z,a,x" <= "...05.5Z", so an entry due 50 ms after now
-    counts as due ... *)
-Lemma work_fires_subsecond_early_counterexample :
-  key_due (5550000000, "a,x") 5500000000 = true.
+(** D39 repaired: the instants on which the string order of the trimmed keys
+    disagreed with the time order.  An entry due 50 ms after now is not due ... *)
+Example subsecond_not_early_example :
+  key_due (5550000000, "a,x") 5500000000 = false.
 Proof. vm_compute. reflexivity. Qed.
 
-(** ... an entry that was due 50 ms ago does not ... *)
-Lemma work_defers_due_entry_counterexample :
-  key_due (5500000000, "a,x") 5550000000 = false.
+(** ... an entry that was due 50 ms ago is ... *)
+Example due_entry_not_deferred_example :
+  key_due (5500000000, "a,x") 5550000000 = true.
 Proof. vm_compute. reflexivity. Qed.
 
-(** ... and an entry on a whole second waits for the next whole second
-    ("...05Z,a,x" > "...05.3Z" since "Z" > "."). *)
-Lemma whole_second_key_waits_a_second_counterexample :
-  key_due (5000000000, "a,x") 5300000000 = false /\
-  key_due (5000000000, "a,x") 6000000000 = true.
-Proof. split; vm_compute; reflexivity. Qed.
+(** ... and an entry on a whole second is due within that second. *)
+Example whole_second_key_due_in_its_second_example :
+  key_due (5000000000, "a,x") 5300000000 = true /\
+  key_due (5000000000, "a,x") 5000000000 = false /\
+  tkey_cmp (5000000000, "a,x") (5300000000, "a,x") = Lt /\
+  tkey_cmp (5500000000, "a,x") (5550000000, "a,x") = Lt.
+Proof. repeat split; vm_compute; reflexivity. Qed.
 
 (** Partition uses the first bytes of the account, not its hash. *)
 Lemma partition_ignores_hash_example :
@@ -1038,14 +1042,12 @@ Proof.
 Qed.
 
 (** The hypotheses of the theorems are satisfiable. *)
-Example clean_history_example :
-  exists ops, Forall clean_op ops /\ c_jobs (brun ops (crolt_init 2)) <> [].
+Example history_example :
+  exists ops, c_jobs (brun ops (crolt_init 2)) <> [].
 Proof.
   exists [BAdd (mkB "homer" "1" "dur" false false None) 5000;
           BWork 1 2000000000 [7000]; BReopen].
-  split.
-  - repeat constructor.
-  - vm_compute. discriminate.
+  vm_compute. discriminate.
 Qed.
 
 Example oneshot_becomes_evict_example :
@@ -1071,4 +1073,136 @@ Proof.
   eexists. eexists. eexists.
   split; [apply buckets_consistent_reachable; repeat constructor|].
   split; [vm_compute; reflexivity|reflexivity].
+Qed.
+
+(** * The time bucket is in the order of the instants (D39 repaired) *)
+
+Lemma tkey_ltb_false_le k k' : tkey_ltb k k' = false -> fst k' <= fst k.
+Proof.
+  unfold tkey_ltb, tkey_cmp. destruct (Z.compare_spec (fst k) (fst k')); intros Hb; first [lia | discriminate Hb].
+Qed.
+
+Lemma tkey_ltb_true_le k k' : tkey_ltb k k' = true -> fst k <= fst k'.
+Proof.
+  unfold tkey_ltb, tkey_cmp. destruct (Z.compare_spec (fst k) (fst k')); intros Hb; first [lia | discriminate Hb].
+Qed.
+
+Lemma sorted_tins k v m : StronglySorted by_instant m -> StronglySorted by_instant (tins k v m).
+Proof.
+  induction m as [|[k1 v1] r IH]; intros Hs; cbn [tins].
+  - constructor; constructor.
+  - inversion Hs as [|? ? Hr Hall]; subst.
+    destruct (tkey_ltb k k1) eqn:E.
+    + constructor; [exact Hs|]. constructor.
+      * unfold by_instant. cbn [fst]. apply tkey_ltb_true_le; exact E.
+      * apply tkey_ltb_true_le in E.
+        eapply Forall_impl; [|exact Hall]. intros y Hy. unfold by_instant in *. cbn [fst] in *. lia.
+    + constructor; [apply IH; exact Hr|].
+      apply tkey_ltb_false_le in E.
+      assert (Hin : forall y, In y (tins k v r) -> y = (k, v) \/ In y r).
+      { clear. induction r as [|[k2 v2] r IH]; cbn [tins]; intros y Hy.
+        - destruct Hy as [<-|[]]. left; reflexivity.
+        - destruct (tkey_ltb k k2).
+          + destruct Hy as [<-|Hy]; [left; reflexivity|right; exact Hy].
+          + destruct Hy as [<-|Hy]; [right; left; reflexivity|].
+            destruct (IH y Hy) as [->|H]; [left; reflexivity|right; right; exact H]. }
+      apply Forall_forall. intros y Hy. destruct (Hin y Hy) as [->|Hy'].
+      * unfold by_instant. cbn [fst]. exact E.
+      * rewrite Forall_forall in Hall. apply Hall; exact Hy'.
+Qed.
+
+Lemma sorted_tremove k m : StronglySorted by_instant m -> StronglySorted by_instant (tremove k m).
+Proof.
+  induction m as [|[k1 v1] r IH]; intros Hs; cbn [tremove]; [constructor|].
+  inversion Hs as [|? ? Hr Hall]; subst.
+  destruct (tkey_eqb k k1); [apply IH; exact Hr|].
+  constructor; [apply IH; exact Hr|].
+  apply Forall_forall. intros y Hy. rewrite Forall_forall in Hall. apply Hall.
+  clear -Hy. induction r as [|[k2 v2] r IH]; cbn [tremove] in Hy; [destruct Hy|].
+  destruct (tkey_eqb k k2).
+  - right. apply IH; exact Hy.
+  - destruct Hy as [<-|Hy]; [left; reflexivity|right; apply IH; exact Hy].
+Qed.
+
+Definition time_sorted (c : crolt) : Prop := StronglySorted by_instant (c_time c).
+
+Lemma sorted_update c j at_ : time_sorted c -> time_sorted (update c j at_).
+Proof.
+  unfold time_sorted, update. intros Hs. cbn [c_time]. unfold tput.
+  apply sorted_tins. apply sorted_tremove.
+  destruct (b_tid j); [apply sorted_tremove|]; exact Hs.
+Qed.
+
+Lemma sorted_delete c aid : time_sorted c -> time_sorted (delete_aid c aid).
+Proof.
+  unfold time_sorted, delete_aid. intros Hs. destruct (alookup aid (c_jobs c)); [|exact Hs].
+  cbn [c_time]. destruct (b_tid b); [apply sorted_tremove|]; exact Hs.
+Qed.
+
+Lemma sorted_fold_delete aids : forall c, time_sorted c -> time_sorted (fold_left delete_aid aids c).
+Proof.
+  induction aids as [|a r IH]; intros c Hs; cbn [fold_left]; [exact Hs|].
+  apply IH. apply sorted_delete; exact Hs.
+Qed.
+
+Lemma sorted_work_loop snap : forall c now ats acc, time_sorted c ->
+  time_sorted (fst (fst (work_loop c snap now ats acc))).
+Proof.
+  induction snap as [|[k j] rest IH]; intros c now ats acc Hs; cbn [work_loop fst]; [exact Hs|].
+  destruct (b_evict j); cbn [fst]; [apply sorted_delete; exact Hs|].
+  match goal with |- context [set_flags ?x] => destruct (set_flags x) end; cbn [fst]; try exact Hs.
+  apply IH. apply sorted_update; exact Hs.
+Qed.
+
+Lemma sorted_bstep c o : time_sorted c -> time_sorted (bstep c o).
+Proof.
+  intros Hs. destruct o as [j at_|a i|a|p now ats|]; cbn [bstep].
+  - unfold c_add. destruct (gen_aid (b_account j) (b_id j)); cbn [fst]; try exact Hs.
+    destruct (alookup a (c_jobs c)); cbn [fst]; try exact Hs.
+    destruct (set_flags j); cbn [fst]; try exact Hs. apply sorted_update; exact Hs.
+  - unfold c_delete. destruct (gen_aid a i); cbn [fst]; try exact Hs. apply sorted_delete; exact Hs.
+  - unfold c_delete_account. apply sorted_fold_delete; exact Hs.
+  - unfold c_work.
+    pose proof (sorted_work_loop (due_snapshot c p now) c now ats [] Hs) as H.
+    destruct (work_loop c (due_snapshot c p now) now ats []) as [[c' fs] r]. cbn [fst] in *.
+    destruct r; cbn [fst]; assumption.
+  - exact Hs.
+Qed.
+
+Theorem time_bucket_in_time_order : time_bucket_in_time_order_statement.
+Proof.
+  intros ops parts. change (time_sorted (brun ops (crolt_init parts))).
+  assert (H : forall c, time_sorted c -> time_sorted (brun ops c)).
+  { induction ops as [|o r IH]; intros c Hs; cbn [brun fold_left]; [exact Hs|].
+    apply IH. apply sorted_bstep; exact Hs. }
+  apply H. constructor.
+Qed.
+
+Lemma sorted_filter (p : tkey * bjob -> bool) m :
+  StronglySorted by_instant m -> StronglySorted by_instant (filter p m).
+Proof.
+  induction m as [|x r IH]; intros Hs; cbn [filter]; [constructor|].
+  inversion Hs as [|? ? Hr Hall]; subst.
+  destruct (p x); [|apply IH; exact Hr].
+  constructor; [apply IH; exact Hr|].
+  apply Forall_forall. intros y Hy. apply filter_In in Hy. rewrite Forall_forall in Hall.
+  apply Hall. apply Hy.
+Qed.
+
+Theorem due_entry_is_served : due_entry_is_served_statement.
+Proof.
+  intros ops parts part now k j c Hin Hp Hd.
+  pose proof (time_bucket_in_time_order ops parts) as Hs. fold c in Hs.
+  unfold due_snapshot.
+  set (p := fun kv : tkey * bjob => partition (b_account (snd kv)) (c_parts c) =? part).
+  assert (Hf : In (k, j) (filter p (c_time c))).
+  { apply filter_In. split; [exact Hin|]. unfold p. cbn [snd]. apply Z.eqb_eq. exact Hp. }
+  pose proof (sorted_filter p _ Hs) as Hsf.
+  destruct (filter p (c_time c)) as [|x r] eqn:E; [destruct Hf|].
+  assert (Hx : key_due (fst x) now = true).
+  { apply key_due_iff. apply key_due_iff in Hd.
+    destruct Hf as [->|Hr]; [exact Hd|].
+    inversion Hsf as [|? ? _ Hall]; subst. rewrite Forall_forall in Hall.
+    specialize (Hall _ Hr). unfold by_instant in Hall. cbn [fst] in Hall. lia. }
+  cbn [take_while]. rewrite Hx. cbn [firstn]. discriminate.
 Qed.
